@@ -81,7 +81,7 @@ def choose(rng, L, R, by):
     return pals
 
 
-def run(ctx):
+def _run_single(ctx):
     quick = ctx.tier == "quick"
     if quick:
         consts, npairs = {"MaxL": 2, "MaxR": 3, "PosCells": [0, 2], "Emit": True}, 4000
@@ -136,6 +136,12 @@ def run(ctx):
     ctx.assumptions += ["abstraction alpha trusts Python scalar ==, <, isnan, isnat",
                         "non-key name clashes between the operands are a free point and are not generated",
                         "column order of join results is a free point (results compared as name -> cells maps)"]
+
+
+def run(ctx):
+    _run_single(ctx)
+    from props import c01
+    c01.histories_for(ctx, "C05", 300 if ctx.tier == "quick" else 4000)
 
 
 def replay(ctx, rp):
